@@ -28,7 +28,7 @@ type vSitePos struct {
 // vTriviaSites finds the positions of doc where trivia may be inserted without
 // touching a body, a description text or an annotation: computed from the
 // skeleton's own lexemes (concrete run of the scanner; not part of the oracle).
-func vTriviaSites(doc string) []vSitePos {
+func vTriviaSitesScan(doc string) []vSitePos {
 	f := fs.NewFile("/vfs/skeleton.jst", []byte(doc))
 	s := scanner.NewJApiScanner(f)
 	type lx struct {
